@@ -41,7 +41,7 @@ def gen_cases(rng, tier):
         target = rng.choice([63, 63, 62, 64, 1, 0, rng.randrange(64), rng.randrange(1, 130)])
         fs = fields(min(target, 63))
         if target > 63:
-            fs.append((target - 63, 0))  # does not fit: must fail and leave the key unchanged
+            fs.append((min(target - 63, 63), 0))  # does not fit: must fail and leave the key unchanged
         ops = [f"push {b} {v}" for b, v in fs] + ["len", "cap", "into_lsb"]
         ops += [f"pop {b}" for b, _ in fs if b <= 63] + ["empty", f"pop {rng.choice([1, 1, 2, 63])}", "len"]
         add(f"word {EMPTY} " + " ; ".join(ops))
